@@ -27,7 +27,13 @@ anything outside the subset raises Miss - the translator never guesses.  Forms a
                                              `self.__shift_by_resource_usage_and_calendar(r, resource_usage, s, t, h)`:
                                              `args` = the arguments without the ledger (max_steps is left to its default);
                                              the signatures are those checked by extract_schedule
-               ["field", f]                  `self.__f` for f in SELF_FIELDS only
+               ["field", f]                  `self.__f` for f in SELF_FIELDS and, in the forward pass only, for
+                                             f = `start` (FWD_SELF_FIELDS: the project start of ForwardScheduler;
+                                             BackwardScheduler has no such attribute); read-only
+               ["ite", c, a, b]              `a if c else b` (inherited from extract_schedule): the test first, then
+                                             the chosen branch only - as used by the end computation of the forward
+                                             pass, `max(end, now, s) if now > self.__start else max(end, s)`, whose
+                                             locals `end` / `now` are plain assignments (["assign", x, e])
                ["min", a, b]                 `min(a, b)`, the arguments in source order (they may change the state)
                ["timedelta", e]              `timedelta(days=e)`
                ["reversed", l]               `reversed(l)`, only as the iterable of a `for` statement and only for
@@ -73,6 +79,9 @@ TASK_LISTS = {'predecessors', 'children', 'successors'}
 TASK_WRITABLE = {'start', 'end', 'estimate', 'spent'}
 TASK_ATTRS = TASK_LISTS | TASK_WRITABLE | {'wbs', 'milestone', 'resource', 'min_start'}
 SELF_FIELDS = {'default_estimate', 'balance_resources'}
+# readable fields of `self` per class: the forward scheduler also reads its project start (`self.__start`)
+FWD_SELF_FIELDS = SELF_FIELDS | {'start'}
+SELF_FIELDS_OF = {'ForwardScheduler': FWD_SELF_FIELDS, 'BackwardScheduler': SELF_FIELDS}
 CHAIN_TMP = '_chain_value'
 CALLS = {es.NEAREST: es.NEAREST_PARAMS, es.SHIFT: es.SHIFT_PARAMS}
 
@@ -82,8 +91,9 @@ def unmangle(name):
 
 
 class PTr(es.STr):
-    def __init__(self, self_name, readable, task_vars, used_names, method, wbs_vars=()):
+    def __init__(self, self_name, readable, task_vars, used_names, method, wbs_vars=(), self_fields=SELF_FIELDS):
         super().__init__(self_name, set(readable), ledger=LEDGER, resources=())
+        self.self_fields = set(self_fields)  # the fields of `self` the method may read
         self.task_vars = set(task_vars)
         self.used_names = used_names
         self.method = method            # the method being translated (the target of `recurse`); None: no recursion
@@ -143,7 +153,7 @@ class PTr(es.STr):
             miss(n, 'the WBS parameter may only occur as `<wbs>.tasks`, the iterable of a `for`')
         if isinstance(n, ast.Attribute) and isinstance(n.value, ast.Name) and n.value.id == self.self_name:
             f = unmangle(n.attr)
-            if not isinstance(n.ctx, ast.Load) or f not in SELF_FIELDS:
+            if not isinstance(n.ctx, ast.Load) or f not in self.self_fields:
                 miss(n, 'field of the scheduler')
             return ['field', f]
         if isinstance(n, ast.Attribute):
@@ -358,7 +368,7 @@ def extract_method(tree, cls, method):
     if fn.returns is not None:
         raise Miss(f'{cls}.{method}: return annotation')
     used = {n.id for n in ast.walk(fn) if isinstance(n, ast.Name)} | {x.arg for x in a.args}
-    tr = PTr(names[0], {'_task', 'min_date'}, {'_task'}, used, method)
+    tr = PTr(names[0], {'_task', 'min_date'}, {'_task'}, used, method, self_fields=SELF_FIELDS_OF.get(cls, SELF_FIELDS))
     body = tr.block(strip_docstring(fn.body), False)
     return {'params': ['_task', 'min_date'], 'body': body}
 
@@ -475,14 +485,12 @@ PINNED = {'Bwd_pass': {'body': [['ifElse', ['calcHas', ['var', '_task']], [['ret
                                 ['assign', 'min_successor_starts',
                                  ['minList',
                                   ['bin', 'add',
-                                   ['listComp', ['attr', ['var', 't'], 'start'], 't',
-                                    ['attr', ['var', '_task'], 'successors'],
+                                   ['listComp', ['attr', ['var', 't'], 'start'], 't', ['attr', ['var', '_task'], 'successors'],
                                     ['isNotNone', ['attr', ['var', 't'], 'start']]],
                                    ['listCons', ['var', 'min_date'], ['listNil']]]]],
                                 ['forIn', 'ch', ['reversed', ['attr', ['var', '_task'], 'children']],
                                  [['recurse',
-                                   ['listCons', ['var', 'ch'],
-                                    ['listCons', ['var', 'min_successor_starts'], ['listNil']]]]]],
+                                   ['listCons', ['var', 'ch'], ['listCons', ['var', 'min_successor_starts'], ['listNil']]]]]],
                                 ['assign', 'resource', ['resSetdefault', ['attr', ['var', '_task'], 'resource']]],
                                 ['assign', 'is_leaf',
                                  ['cmp', 'eq', ['len', ['attr', ['var', '_task'], 'children']], ['num', '0']]],
@@ -503,8 +511,7 @@ PINNED = {'Bwd_pass': {'body': [['ifElse', ['calcHas', ['var', '_task']], [['ret
                                       ['setAttr', ['var', '_task'], 'end',
                                        ['bin', 'add', ['attr', ['var', '_task'], 'end'], ['timedelta', ['num', '1']]]]],
                                      [['assign', 'children_ends',
-                                       ['listComp', ['attr', ['var', 't'], 'end'], 't',
-                                        ['attr', ['var', '_task'], 'children'],
+                                       ['listComp', ['attr', ['var', 't'], 'end'], 't', ['attr', ['var', '_task'], 'children'],
                                         ['isNotNone', ['attr', ['var', 't'], 'end']]]],
                                       ['ifElse', ['cmp', 'eq', ['len', ['var', 'children_ends']], ['num', '0']],
                                        [['setAttr', ['var', '_task'], 'end', ['var', 'min_date']]],
@@ -568,14 +575,12 @@ PINNED = {'Bwd_pass': {'body': [['ifElse', ['calcHas', ['var', '_task']], [['ret
                                 ['assign', 'max_predecessor_ends',
                                  ['maxList',
                                   ['bin', 'add',
-                                   ['listComp', ['attr', ['var', 't'], 'end'], 't',
-                                    ['attr', ['var', '_task'], 'predecessors'],
+                                   ['listComp', ['attr', ['var', 't'], 'end'], 't', ['attr', ['var', '_task'], 'predecessors'],
                                     ['isNotNone', ['attr', ['var', 't'], 'end']]],
                                    ['listCons', ['var', 'min_date'], ['listNil']]]]],
                                 ['forIn', 'ch', ['attr', ['var', '_task'], 'children'],
                                  [['recurse',
-                                   ['listCons', ['var', 'ch'],
-                                    ['listCons', ['var', 'max_predecessor_ends'], ['listNil']]]]]],
+                                   ['listCons', ['var', 'ch'], ['listCons', ['var', 'max_predecessor_ends'], ['listNil']]]]]],
                                 ['assign', 'resource', ['resSetdefault', ['attr', ['var', '_task'], 'resource']]],
                                 ['assign', 'is_leaf',
                                  ['cmp', 'eq', ['len', ['attr', ['var', '_task'], 'children']], ['num', '0']]],
@@ -629,14 +634,16 @@ PINNED = {'Bwd_pass': {'body': [['ifElse', ['calcHas', ['var', '_task']], [['ret
                                          ['attr', ['var', '_task'], 'spent']],
                                         ['num', '0']]],
                                       ['assign', 'start', ['max', ['attr', ['var', '_task'], 'start'], ['now']]],
+                                      ['assign', 'end',
+                                       ['callSelf', 'shift_by_resource_usage_and_calendar',
+                                        ['listCons', ['var', 'resource'],
+                                         ['listCons', ['var', 'start'],
+                                          ['listCons', ['var', '_task'], ['listCons', ['var', 'left_hours'], ['listNil']]]]]]],
+                                      ['assign', 'now', ['now']],
                                       ['setAttr', ['var', '_task'], 'end',
-                                       ['max3',
-                                        ['callSelf', 'shift_by_resource_usage_and_calendar',
-                                         ['listCons', ['var', 'resource'],
-                                          ['listCons', ['var', 'start'],
-                                           ['listCons', ['var', '_task'],
-                                            ['listCons', ['var', 'left_hours'], ['listNil']]]]]],
-                                        ['now'], ['attr', ['var', '_task'], 'start']]]],
+                                       ['ite', ['cmp', 'gt', ['var', 'now'], ['field', 'start']],
+                                        ['max3', ['var', 'end'], ['var', 'now'], ['attr', ['var', '_task'], 'start']],
+                                        ['max', ['var', 'end'], ['attr', ['var', '_task'], 'start']]]]],
                                      [['setAttr', ['var', '_task'], 'end',
                                        ['maxList',
                                         ['listComp', ['attr', ['var', 't'], 'end'], 't',
